@@ -216,6 +216,54 @@ where
         kani::cover!(v6.is_err(), "the expected outcome is reachable");
         return;
     }
+    if EDIT >= 100 {
+        // C04, bit flips: one symbolic bit of the payload octet of segment SEG = EDIT - 100 of the encoded
+        // proof is flipped (segments: Abar, Bbar, D, e^, r1^, r3^, m^_1.., challenge); the flipped proof is
+        // decoded (framing untouched, so it decodes) and verified with an independent challenge answer.
+        let seg = EDIT - 100;
+        // re-frame the honest proof canonically (flag / form octets written as constants, payload octets
+        // copied) so that decoding does not branch on symbolic values; this assumes the honest proof has
+        // no identity point and no zero scalar (probability ~ 1/r each)
+        let mut t = vec![0u8; 272 + 32 * u_count];
+        let mut k = 0;
+        while k < 3 {
+            kani::assume(enc[48 * k] == 0x80);
+            t[48 * k] = 0x80;
+            t[48 * k + 47] = enc[48 * k + 47];
+            k += 1;
+        }
+        let mut j = 0;
+        while j < 4 + u_count {
+            kani::assume(enc[144 + 32 * j + 30] == 1);
+            t[144 + 32 * j + 30] = 1;
+            t[144 + 32 * j + 31] = enc[144 + 32 * j + 31];
+            j += 1;
+        }
+        let pos = if seg < 3 { 48 * seg + 47 } else { 144 + 32 * (seg - 3) + 31 };
+        let bit: u8 = kani::any();
+        kani::assume(bit < 8);
+        t[pos] ^= 1u8 << bit;
+        let p2 = PoKSignature::<BBSplus<CS>>::from_bytes(&t);
+        assert!(p2.is_ok(), "C09: a proof with a flipped payload bit and intact framing must still decode");
+        let p2 = p2.unwrap();
+        o.ans[n_prover + r_count + 1] = kani::any();
+        o.on = true;
+        let v7 = p2.proof_verify(&pk, Some(&dmsgs), Some(&vidx), vhdr, vph);
+        o.on = false;
+        let same7 = o.msg_len[n_prover + r_count + 1] == chal_len && caps_equal(if chal_len < CAP_LEN { chal_len } else { CAP_LEN });
+        if v7.is_ok() {
+            assert!(!same7, "C04: a proof with a flipped bit leads to the same challenge input");
+            // the transmitted challenge of the flipped proof
+            let sent = if seg == 6 + u_count {
+                Scalar::from_nonzero_raw(t[pos] as u16 + 1)
+            } else {
+                rf::scalar_of_state(o.ans[L + 1])
+            };
+            assert!(rf::scalar_of_state(o.ans[n_prover + r_count + 1]) == sent, "C04: a proof with one flipped bit verifies although its challenge differs");
+        }
+        kani::cover!(v7.is_err(), "the expected outcome is reachable");
+        return;
+    }
     if !expect_same_query {
         // a different query gets an independent answer
         o.ans[n_prover + r_count + 1] = kani::any();
